@@ -518,6 +518,18 @@ func (c *Ctx) bin(op Op, a, b *Term) *Term {
 			return a
 		}
 	case OpBOr:
+		// byte reassembly of a 16-bit value: zext(x[7:0]) | (zext(x[15:8]) << 8) = x
+		if w == 16 {
+			for _, pr := range [][2]*Term{{a, b}, {b, a}} {
+				lo, hi := pr[0], pr[1]
+				if lo.Op == OpZExt && lo.Args[0].Op == OpExtract && lo.Args[0].P1 == 7 && lo.Args[0].P2 == 0 &&
+					hi.Op == OpShl && hi.Args[1].IsConst() && hi.Args[1].Val == 8 && hi.Args[0].Op == OpZExt &&
+					hi.Args[0].Args[0].Op == OpExtract && hi.Args[0].Args[0].P1 == 15 && hi.Args[0].Args[0].P2 == 8 &&
+					hi.Args[0].Args[0].Args[0] == lo.Args[0].Args[0] && lo.Args[0].Args[0].S.W == 16 {
+					return lo.Args[0].Args[0]
+				}
+			}
+		}
 		if a.IsConst() {
 			a, b = b, a
 		}
@@ -730,6 +742,13 @@ func (c *Ctx) Extract(a *Term, hi, lo int) *Term {
 	}
 	if a.Op == OpExtract {
 		return c.Extract(a.Args[0], a.P2+hi, a.P2+lo)
+	}
+	// extract of a logical right shift by a constant: shift the window (when it stays inside the value)
+	if a.Op == OpLShr && a.Args[1].IsConst() {
+		k := int(a.Args[1].Val)
+		if hi+k < a.S.W {
+			return c.Extract(a.Args[0], hi+k, lo+k)
+		}
 	}
 	return c.mk(OpExtract, BV(w), 0, hi, lo, "", a)
 }
